@@ -42,6 +42,10 @@ func Check(v any) error {
 		return errors.New("jsonapi: ID field's api tag is empty")
 	}
 
+	if resType == "attr" || resType == "rel" || strings.HasPrefix(resType, "rel,") {
+		return errors.New("jsonapi: ID field's api tag must be the type's name")
+	}
+
 	// Check the names (json tags) of the fields
 	names := map[string]bool{}
 
